@@ -53,21 +53,37 @@ def expected_lookup(ft, dkeys, penv, keys):
     return 'parent'
 
 
-def scenario_for(ft, dkeys, roots, keys=None, op=None):
-    """native replay scenario: the same situation built from real runtime types (parent = a built runtime whose globals are `roots`)"""
+def scenario_for(ft, dkeys, roots, keys=None, op=None, deep=None):
+    """native replay scenario: the same situation built from real runtime types (parent = a built runtime whose globals are `roots`).
+    deep = {'own': set of (k, s) that must resolve in own data, 'parent': likewise} -- taken from the solver model"""
     kind = {'StackFrame': 'plain', 'SandboxedStackFrame': 'sandbox', 'GlobalFrame': 'global', 'IndexFrame': None}[ft]
+    deep = deep or {'own': set(), 'parent': set()}
+    def val(side, k):
+        inner = {s: 1 if side == 'own' else 2 for (kk, s) in deep[side] if kk == k}
+        inner['x' if side == 'own' else 'g'] = 1 if side == 'own' else 2
+        return inner
     ops = []
-    data = {k: {'x': 1} for k in dkeys}
+    data = {k: val('own', k) for k in dkeys}
     if kind in ('plain', 'sandbox'): ops.append({'push': kind, 'data': data})
     elif kind == 'global':
         ops.append({'push': 'global'})
-        for k in dkeys: ops.append({'set_global': [k, {'x': 1}]})
+        for k in dkeys: ops.append({'set_global': [k, data[k]]})
     else:
         # IndexFrame is crate-private: reachable only as the counter layer of a built runtime
         for k in dkeys: ops.append({'set_index': [k, 7]})
     if op: ops.append(op)
     qs = [list(keys)] if keys is not None else [[k] for k in ALPHA + (OTHER,)]
-    return {'kind': 'stack', 'globals': {k: {'x': 2, 'g': 1} for k in roots} if ft != 'IndexFrame' else {}, 'ops': ops, 'queries': qs}
+    return {'kind': 'stack', 'globals': {k: val('parent', k) for k in roots} if ft != 'IndexFrame' else {}, 'ops': ops, 'queries': qs}
+
+
+def deep_from_model(m, penv, fenv):
+    deep = {'own': set(), 'parent': set()}
+    if m is None: return deep
+    for keys, b in penv.has.items():
+        if len(keys) == 2 and z3.is_true(m.eval(b, model_completion=True)): deep['parent'].add(keys)
+    for (tag, keys), b in fenv.vars.items():
+        if len(keys) == 2 and z3.is_true(m.eval(b, model_completion=True)): deep['own'].add(keys)
+    return deep
 
 
 def reference_stack(sc):
@@ -162,9 +178,9 @@ def ob_lookup(chk, P, ft, maxlen):
                                 if present and tok != ('PVAL', keys): bad = f'expected the parent\'s value, got {tok}'
                                 if (which, keys) not in pcalls: bad = f'transparent lookup must ask the parent for the same path; parent calls: {pcalls}'
                             if bad:
+                                sc = scenario_for(ft, dkeys, roots, keys, None, deep_from_model(ob.decide(ex, s2.conds, z3.BoolVal(True)), penv, fenv))
                                 ob.violation(f'{ft}/{which}/{exp}', f'{ft}::{which}: {bad} (own keys {dkeys}, parent roots {roots}, path {keys})',
-                                             {'frame': ft, 'own': dkeys, 'parent_roots': roots, 'path': keys, 'result': str(val)},
-                                             scenario_for(ft, dkeys, roots, keys), confirm_stack(scenario_for(ft, dkeys, roots, keys)))
+                                             {'frame': ft, 'own': dkeys, 'parent_roots': roots, 'path': keys, 'result': str(val)}, sc, confirm_stack(sc))
                         outs[which] = res
                     # Inv: get Ok <=> try_get Some, same value -- for every pair of compatible paths
                     for (s1, p1, t1, _) in outs['try_get']:
@@ -172,8 +188,9 @@ def ob_lookup(chk, P, ft, maxlen):
                             m = ob.decide(ex, s1.conds + s2.conds, z3.BoolVal(True))
                             if m is None: continue
                             if p1 != p2 or (p1 and t1 != t2):
+                                sc = scenario_for(ft, dkeys, roots, keys, None, deep_from_model(m, penv, fenv))
                                 ob.violation(f'{ft}/get-vs-try_get', f'{ft}: get and try_get disagree on path {keys} (own {dkeys}, parent roots {roots}): try_get={p1}:{t1} get={p2}:{t2}',
-                                             {'frame': ft, 'own': dkeys, 'parent_roots': roots, 'path': keys}, scenario_for(ft, dkeys, roots, keys), confirm_stack(scenario_for(ft, dkeys, roots, keys)))
+                                             {'frame': ft, 'own': dkeys, 'parent_roots': roots, 'path': keys}, sc, confirm_stack(sc))
                     ob.sample({'own': dkeys, 'parent_roots': roots, 'path': keys, 'expect': exp})
         ob.absorb(ex)
 
